@@ -105,6 +105,7 @@ def layerOf (kk : KeyKind) (bf : Nat) (k : Nat) : Nat :=
   | .vk => k % 256
   | .u64 | .uint => uintLayer bf k
   | .i64 | .int => uintLayer bf (if k ≥ Codec.i64bias then k - Codec.i64bias else Codec.i64bias - k)
+  | .i64w => uintLayer bf (if k ≥ 2 ^ 63 then k - 2 ^ 63 else 2 ^ 63 - k)
   | .str | .strx | .bytes | .sk | .skc => uintLayer bf (crc64 (Codec.keyRaw kk k))
 
 inductive Fmt where
